@@ -80,6 +80,12 @@ type lpWorld struct {
 	cfg    *prom.ConfigManager
 	root   string
 	nextID int
+	// ONE coordinator for the whole history, as in the real process: anything it remembers between cycles is part of
+	// the behaviour under test. Its view of the shards, of discovery and of the explorer is swapped before every cycle.
+	co         *coordinator.Coordinator
+	rep        *scriptedReplicas
+	curActive  map[uint64]*discovery.SDTargets
+	curExplore map[uint64]*target.ScrapeStatus
 }
 
 func (w *lpWorld) setClock() {
@@ -240,10 +246,16 @@ func (w *lpWorld) cycle(st lpStep) (posts []*[]coPT, scales []int32, panicked st
 	}
 	o := &coordinator.Option{MaxHeadSeries: w.c.Opts.MaxHead, MaxProcessSeries: w.c.Opts.MaxProc, MaxShard: w.c.Opts.MaxShard, MinShard: w.c.Opts.MinShard,
 		MaxIdleTime: time.Duration(w.c.Opts.MaxIdle) * time.Second, Period: time.Hour, DisableAlleviate: w.c.Opts.DisableAlleviate}
-	co := coordinator.NewCoordinator(o, &scriptedReplicas{[]shard.Manager{m}}, w.cfg.ConfigInfo,
-		func(h uint64) *target.ScrapeStatus { return explore[h] },
-		func() map[uint64]*discovery.SDTargets { return active },
-		prometheus.NewRegistry(), quietLog)
+	w.curActive, w.curExplore = active, explore
+	if w.co == nil {
+		w.rep = &scriptedReplicas{[]shard.Manager{m}}
+		w.co = coordinator.NewCoordinator(o, w.rep, w.cfg.ConfigInfo,
+			func(h uint64) *target.ScrapeStatus { return w.curExplore[h] },
+			func() map[uint64]*discovery.SDTargets { return w.curActive },
+			prometheus.NewRegistry(), quietLog)
+	}
+	w.rep.ms = []shard.Manager{m}
+	co := w.co
 	func() {
 		defer func() {
 			if r := recover(); r != nil {
